@@ -1519,6 +1519,9 @@ def _corr_fixfull(ctx, drv):
             slots.append("skip")
             continue
         m, n, sg, mi, tsg, tv, xp = _delspikes_params(ds)
+        # the despikers shrink a window longer than the record to len-1 points: then the window is no longer 2^k+1 long
+        # and the code's floating-point statistics are not exact, whatever the data
+        c["_window_kept"] = len(data) >= n
         slots.append(len(reqB))
         for eps in (0, _EPS, -_EPS):
             reqB.append(_despike_requests(m, n, sg, mi, tsg, tv, xp, data, eps))
@@ -1541,7 +1544,7 @@ def _corr_fixfull(ctx, drv):
                     ctx.skip("fixtime: the despiker raises / leaves the model's domain")
                 continue
             if not (nom == up == dn):
-                if c.get("spike_exact"):
+                if c.get("spike_exact") and c.get("_window_kept"):
                     ctx.count("branch:despike-exact-tie")      # a designed tie, every statistic exact: compared as is
                 else:
                     ctx.skip("fixtime: a despike decision within 1e-9 of its threshold")
